@@ -67,6 +67,10 @@ def execute(ob):
         line["cls"], line["etype"] = c.split("_", 1)
         line["msg"] = str(ex)[:160]
         return line
+    if name not in out or out[name] is None or len(out[name]) != len(kins):
+        # the run returned normally but the requested observable is not in the result (or not with its points)
+        line["cls"], line["etype"], line["msg"] = "Crash", "RequestedObservableMissingFromResult", f"{name} not in the output"
+        return line
     fin = True
     for r in out[name]:
         for v, e in r.orders.values():
